@@ -13,6 +13,7 @@ ID = "C12"
 LEVEL = "exploration"
 LANGS = ["de", "en", "es", "fr", "it", "ja", "nl", "no", "pl", "pt", "simple", "sv"]
 MARKS = "‎‏"
+UNI_WS = ["\u3000", "\u00a0", "\u2002", "\u2003", "\u2009", "\u2028", "\u205f", "\u1680", "\t", "\n", "\x0b", "\x1f", "\x85"]
 RULE = ("for each of the 12 bundled siteinfos (+ a case-sensitive variant of each): every namespace x {local, "
         "canonical, each alias} x letter-case variants x '_'/space/run separators x leading colon x surrounding "
         "whitespace x generated bases (Unicode letters incl. special casing, colons, namespace-like prefixes) x "
@@ -202,6 +203,13 @@ def run_shard(desc, R):
             R.count("L1_classes")
             for t in spellings:
                 forms = [t, " " + t + "  ", "_" + t, ":" + t, " :" + t + "_"]
+                # surrounding whitespace is not only the ASCII blank
+                u1, u2 = rnd.choice(UNI_WS), rnd.choice(UNI_WS)
+                forms += [u1 + t, t + u2, u1 + " " + t + u2, ":" + u1 + t]
+                if ":" in t and ns != 0:
+                    a_, b_ = t.split(":", 1)
+                    forms.append(a_ + u1 + ":" + u2 + b_)
+                R.count("unicode_whitespace_spellings", 4)
                 if ns == 0 and dns != 0:
                     forms = [":" + t, " :" + t + "_", ": " + t]
                 if ns == dns and ns != 0 and ":" in t:
@@ -267,6 +275,38 @@ def run_shard(desc, R):
                 if res is not None:
                     R.case(h64(lang, title, dns), True)
                     idem(tuple(res), title, dns, tag)
+    site_stability(R, rnd)
+
+
+def site_stability(R, rnd):
+    """every site asked for again, in other orders, in one process: the configuration handed out for a language
+    must be that language's bundled file, and the handler built from it must resolve that site's namespaces"""
+    import json
+    from mwlib.core import nshandling
+    from mwlib.network import siteinfo
+    order = list(LANGS) + list(reversed(LANGS)) + rnd.sample(LANGS, len(LANGS))
+    for lang in order:
+        with open(str(siteinfo._get_path(lang)), encoding="utf-8") as f:
+            disk = json.load(f)
+        got = siteinfo.get_siteinfo(lang)
+        R.count("site_stability_checks")
+        case = {"site": lang, "order": order}
+        if got != disk:
+            R.violation("L5:site-configuration-mixed-up", "get_siteinfo(%r) no longer returns the bundled configuration of %r "
+                        "(sitename %r)" % (lang, lang, (got or {}).get("general", {}).get("sitename")), case)
+            return
+        h = nshandling.get_nshandler_for_lang(lang)
+        ref = Ref(disk)
+        for ns in sorted(ref.local):
+            name = ref.local[ns]
+            if not name or ref.lookup(name) != {ns}:
+                continue
+            res = tuple(h.splitname(name + ":x y", defaultns=0))
+            exp = ref.split(name + ":x y", 0)
+            if exp is not None and res != exp:
+                R.violation("L5:site-handler-mixed-up", "handler for %r: splitname(%r) = %r, the site's configuration gives %r" % (
+                    lang, name + ":x y", res, exp), case)
+                return
 
 
 def replay(case):
